@@ -6,6 +6,7 @@ from contextlib import contextmanager
 from io import BytesIO
 from ...utils.leb128 import unsigned_leb128_decode, signed_leb128_decode
 from ..opcodes import ArgType, OPERANDS, REVERZ
+from ..util import f32_from_bits
 from ..components import Ref, Instruction, SECTION_IDS, DEFINITION_CLASSES
 from .. import components
 from .io import LANG_TYPES_REVERSE
@@ -171,7 +172,7 @@ class BinaryFileReader:
 
     def read_f32(self) -> float:
         """Read a single f32 value"""
-        return self.read_fmt("f")
+        return f32_from_bits(self.read_fmt("<I"))
 
     def read_f64(self) -> float:
         """Read a single f64 value"""
